@@ -578,7 +578,7 @@ def _gen_gradient(draw, cx):
     g = node(kind, a)
     own_stops = True
     if cx.grads and draw(st.integers(0, 2)) == 0:
-        a["xlink:href"] = f"#{draw(st.sampled_from(cx.grads))}"
+        g["a"]["xlink:href"] = f"#{draw(st.sampled_from(cx.grads))}"  # (node() copied the dict)
         cx.feat.add("gradient-href")
         own_stops = draw(st.booleans())
     if own_stops:
